@@ -6,7 +6,14 @@ STORAGE = {"pkg": "./pkg/storage", "files": ["pkg/storage/h_common.go", "pkg/sto
 
 LOADER = {"pkg": "./pkg/chart/v2/loader", "files": ["pkg/chart/v2/loader/h_c16_names.go"]}
 
+RELUTIL = {"pkg": "./pkg/release/util", "files": ["pkg/release/util/h_c08_part.go"]}
+
 CHECKS = {
+    "C08": {
+        "runs": [dict(RELUTIL, entries=["H08Partition", "H08Order"], bounds_quick={"files": 1, "docs": 2, "kinds": 5, "odocs": 3}, bounds_thorough={"files": 2, "docs": 2, "kinds": 7, "odocs": 4},
+                      optional_sites=["partition/partials-never-applied"])],
+        "bounds": {}, "assumptions": [],
+    },
     "C16": {
         "runs": [dict(LOADER, entries=["H16Names", "H16Size"], bounds_quick={"namelen": 6, "maxsize": 40, "entries": 2}, bounds_thorough={"namelen": 8, "maxsize": 40, "entries": 3},
                       optional_sites=["size/requested-within-remaining-budget"]),
